@@ -560,3 +560,7 @@ fn evaluate_duration_accessor(
         _ => None,
     }
 }
+
+#[cfg(kani)]
+#[path = "/verif/kani/query/evaluator.rs"]
+mod kani_harness;
